@@ -252,6 +252,23 @@ def _check_logrep_pair(U, a, b, cfg, acc):
         ex = d_lse(da, db)
         judge(r.log_val, ex, tol_log(a, b, to_float(ex)), acc, cfg, "LogRep+LogRep", [a, b],
               "log")
+    # in-place add of the same pair (a fresh accumulator; the operand must stay untouched)
+    z, w = L(log_val=a), L(log_val=b)
+    st, r = call(z.__iadd__, w)
+    if st == "exc":
+        rec_exc("LogRep+=LogRep", r)
+    elif not isinstance(r, L):
+        acc.violation(driver="lattice", config=cfg,
+                      fields={"op": "LogRep+=LogRep", "problem": "not_a_LogRepFloat"},
+                      kind="type", observed=type(r).__name__, expected="LogRepFloat", args=[a, b])
+    else:
+        ex = d_lse(da, db)
+        judge(r.log_val, ex, tol_log(a, b, to_float(ex)), acc, cfg, "LogRep+=LogRep", [a, b],
+              "log")
+        if w.log_val != b and not (w.log_val != w.log_val and b != b):
+            acc.violation(driver="lattice", config=cfg,
+                          fields={"op": "LogRep+=LogRep", "problem": "operand_modified"},
+                          kind="operand_modified", observed=w.log_val, expected=b, args=[a, b])
     # mul / div
     st, r = call(lambda: x * y)
     if st == "exc":
@@ -394,11 +411,12 @@ def _check_logrep_mixed(U, a, cfg, acc):
                                       args=[a, y])
 
 
-ACC_ALPHA = [-INF, -745.0, -37.0, -1e-10, 0.0, 0.6931471805599453, 36.5, 709.0]
+ACC_ALPHA = [-INF, -1000.0, -746.0, -745.0, -37.0, -1e-10, 0.0, 0.6931471805599453, 36.5, 709.0,
+             1000.0]
 
 
 def _check_accumulate(U, cfg, acc):
-    """All in-place accumulation sequences of length <= 3 over an 8-letter alphabet of weights;
+    """All in-place accumulation sequences of length <= 3 over an 11-letter alphabet (including weights whose plain value under- / overflows) of weights;
     the k-th letter may be given as LogRepFloat or (if representable) a plain number."""
     L = U.LogRepFloat
     start = ACC_ALPHA[cfg["i"]]
